@@ -45,15 +45,26 @@ func (m *Mutex) Unlock() {
 
 // ---------------------------------------------------------------- RWMutex
 
-// RWMutex: writers get no preference (real RWMutex blocks new readers once a
-// writer waits). More permissive than Go's: can miss a deadlock, never invents one.
-type RWMutex struct{ mu sync.RWMutex }
+// RWMutex models Go's writer preference faithfully: "a blocked Lock call
+// excludes new readers from acquiring the lock" (package sync). A reader that
+// re-acquires RLock while a writer waits therefore deadlocks here exactly as
+// it does with the real RWMutex.
+type RWMutex struct {
+	mu      sync.RWMutex
+	waiting atomic.Int32 // writers blocked in Lock
+}
 
 func (m *RWMutex) Lock() {
 	simrt.SyncPoint(simrt.OpLock, addr(m))
+	if m.mu.TryLock() {
+		return
+	}
+	m.waiting.Add(1)
 	for !m.mu.TryLock() {
 		simrt.Block(addr(m))
 	}
+	m.waiting.Add(-1)
+	simrt.Progress()
 }
 func (m *RWMutex) TryLock() bool {
 	simrt.SyncPoint(simrt.OpLock, addr(m))
@@ -66,12 +77,15 @@ func (m *RWMutex) Unlock() {
 }
 func (m *RWMutex) RLock() {
 	simrt.SyncPoint(simrt.OpRLock, addr(m))
-	for !m.mu.TryRLock() {
+	for m.waiting.Load() > 0 || !m.mu.TryRLock() {
 		simrt.Block(addr(m))
 	}
 }
 func (m *RWMutex) TryRLock() bool {
 	simrt.SyncPoint(simrt.OpRLock, addr(m))
+	if m.waiting.Load() > 0 {
+		return false
+	}
 	return m.mu.TryRLock()
 }
 func (m *RWMutex) RUnlock() {
